@@ -312,6 +312,9 @@ func (app *App) optimizeReplicaWithSmallestLag(
 		return err
 	}
 	replicaToOptimize := app.cluster.Get(hostnameToOptimize)
+	if replicaToOptimize == nil {
+		return fmt.Errorf("host %s is not a registered cluster host", hostnameToOptimize)
+	}
 
 	err = app.optController.Enable(replicaToOptimize)
 	if err != nil {
